@@ -31,6 +31,7 @@ def run(ctx):
     check_case(ctx, prog)
     check_count(ctx, prog)
     check_nocase(ctx, prog)
+    check_case_bytes(ctx, prog)
     return __doc__.split('\n\n', 1)[1]
 
 
@@ -1586,6 +1587,46 @@ def interp_term_site(prog, g, call, si, ni, safe):
         if not probe['seen']:
             return None
     return 'ok', 'interpreted for argument arrays of 0, 1 and 3 elements: the converter meets a terminator inside the source it is handed'
+
+
+def check_case_bytes(ctx, prog):
+    """C08.casebytes: on arbitrary bytes the case mappings stay inside their buffers and never produce more bytes than the
+    input.  toUpperCase() / toLowerCase() are interpreted (scansim, the result String bounds-checked) on every string of
+    length <= 2 (<= 3 in the thorough tier) over the boundary-byte alphabet 41 61 7F 80 BF C0 C2 DF E0 EF F0 F4 F7 F8 FF."""
+    import scansim, itertools
+    alpha = (0x41, 0x61, 0x7f, 0x80, 0xbf, 0xc0, 0xc2, 0xdf, 0xe0, 0xef, 0xf0, 0xf4, 0xf7, 0xf8, 0xff)
+    for name in ('asl::String::toUpperCase', 'asl::String::toLowerCase'):
+        g = fn1(prog, name)
+        ctx.analysed(g)
+        role = '%s:ill-formed bytes stay in bounds, result not longer than the input' % g['n']
+        bad = und = None
+        runs = 0
+        for L in range(1, 4 if ctx.tier == 'thorough' else 3):
+            for t in itertools.product(alpha, repeat=L):
+                by = [b - 256 if b > 127 else b for b in t]
+                bufs = {'T': by + [0]}
+                r = scansim.Run(prog, g, bufs, call_ptrs={'str': ('P', 'T', 0)}, methods={'*': 'interp'}, mems={'_len': L}, objects=True)
+                runs += 1
+                shown = ' '.join('%02X' % b for b in t)
+                try:
+                    ret = r.run()
+                    out = bufs[ret[1]]
+                except scansim.OOB as o:
+                    bad = '%s() of the bytes %s: %s (the result is sized from the input length)' % (g['n'], shown, o)
+                    break
+                except (scansim.Unsupported, TypeError, KeyError, IndexError, ValueError) as u:
+                    und = str(u)
+                    break
+                if 0 not in out or out.index(0) > L:
+                    bad = '%s() of the %d byte(s) %s gives %s byte(s): case mapping must not produce more bytes than its input' % (g['n'], L, shown, out.index(0) if 0 in out else 'unterminated')
+                    break
+            if bad or und:
+                break
+        ctx.evaluations += runs
+        if und:
+            ctx.undecided('C08.casebytes', g['pq'], role, fwhere(g), 'outside the interpreted fragment: %s' % und)
+        else:
+            ctx.check(bad is None, 'C08.casebytes', g['pq'], role, fwhere(g), 'interpreted on %d byte strings over the boundary alphabet' % runs, bad or '')
 
 
 def check_nocase(ctx, prog):
